@@ -803,6 +803,30 @@ def sess_structured_failures(w):
                     if fmt_path is not None:
                         HH.ttlv_get(t, fmt_path)[2] = fmt.value.to_bytes(4, 'big')
                     frames.append(('%s: structure-typed key material {%06x} under %s' % (name, inner_tag, fmt.name), HH.ttlv_build(t)))
+    # VALUE-level corruption that keeps the structure intact: every text field (password, user name, device fields,
+    # identifiers, attribute names, name values) is made invalid UTF-8 by one byte appended / replaced / inserted.
+    dpw = w.can.new('password', 24, text=True).decode()
+    dev = contents.Authentication(credentials=[cobjects.Credential(
+        credential_type=E.CredentialType.DEVICE,
+        credential_value=cobjects.DeviceCredential(device_serial_number='serial-0001', password=dpw, device_identifier='device-7',
+                                                   network_identifier='net-3', machine_identifier='machine-9', media_identifier='media-2'))])
+    text_reqs = [(n, HH.encode_request(w, items, auth=auth)) for n, items, _ in reqs[:2]]
+    text_reqs.append(('get-with-device-credential', HH.encode_request(w, [kdrv.get('1')], auth=dev)))
+    text_reqs.append(('register-named-with-device-credential', HH.encode_request(
+        w, [kdrv.register(OT.SYMMETRIC_KEY, kdrv.symmetric_key_secret(key, ALG.AES, 256), names=['name-of-the-key'])], auth=dev)))
+    for name, good in text_reqs:
+        tree = HH.ttlv_parse(good)
+        for p in HH.ttlv_paths(tree):
+            node = HH.ttlv_get(tree, p)
+            if node[1] != 7 or not node[2]:
+                continue
+            v = bytes(node[2])
+            h = len(v) // 2
+            for lab, nv in (('append e9', v + b'\xe9'), ('last byte e9', v[:-1] + b'\xe9'), ('insert ff in the middle', v[:h] + b'\xff' + v[h:]),
+                            ('append truncated c3', v + b'\xc3'), ('first byte 80', b'\x80' + v[1:])):
+                t = copy.deepcopy(tree)
+                HH.ttlv_get(t, p)[2] = nv
+                frames.append(('%s: text item %06x at %s: %s' % (name, node[0], p, lab), HH.ttlv_build(t)))
     w.opcount['structured_frames'] += len(frames)
     # one connection per 25 frames (a failed frame does not end the connection)
     for k in range(0, len(frames), 25):
@@ -812,6 +836,47 @@ def sess_structured_failures(w):
 
 
 # ---------------------------------------------------------------------------------------------- pie client
+@atom(layer='client')
+def client_config_files(w):
+    """KMIPProxy and ProxyKmipClient built from temporary pykmip.conf files whose password carries a canary together
+    with ConfigParser metacharacters (no request is sent: reading the configuration is the whole history)."""
+    import os
+    import tempfile
+    from kmip.pie import client as pie_client
+    from kmip.services import kmip_client
+    d = tempfile.mkdtemp(dir=str(w.ctx.work))
+    w.scratch.append(d)
+
+    def variants():
+        a = w.can.new('password-part', 12, text=True).decode()
+        b = w.can.new('password-part', 12, text=True).decode()
+        return a, b
+    shapes = [('plain', '{a}{b}'), ('percent', '{a}%{b}'), ('trailing percent', '{a}{b}%'), ('leading percent', '%{a}{b}'),
+              ('unknown key', '{a}%(x)s{b}'), ('self reference', '{a}%(password)s{b}'), ('known key', '{a}%(host)s{b}'),
+              ('doubled percent', '{a}%%{b}'), ('unterminated key', '{a}%({b}'), ('bad conversion', '{a}%(host)d{b}'),
+              ('spaces', '  {a} {b}  '), ('continuation line', '{a}\n    {b}'), ('dollar brace', '{a}${{x}}{b}'),
+              ('equals and colon', '{a}=:{b}'), ('hash and semicolon', '{a} #;{b}'), ('quotes', '"{a}\'{b}"'), ('brackets', '[{a}]{b}')]
+    for k, (lab, shape) in enumerate(shapes):
+        a, b = variants()
+        value = shape.format(a=a, b=b)
+        w.can.add('password', value.replace('\n    ', '').encode())
+        path = os.path.join(d, 'pykmip-%02d.conf' % k)
+        with open(path, 'w') as f:
+            f.write('[client]\nhost=127.0.0.1\nport=5696\nusername=user%name\nkeyfile=/etc/pykmip/%(nokey)s/client.key\n'
+                    'certfile=/etc/pykmip/cert %% .pem\nca_certs=\ncert_reqs=CERT_REQUIRED\nssl_version=PROTOCOL_SSLv23\n'
+                    'do_handshake_on_connect=True\nsuppress_ragged_eofs=True\ntimeout=%(port)s\npassword=' + value + '\n'
+                    '[other]\npassword=' + value + '\n')
+        for label, build in (('KMIPProxy', lambda: kmip_client.KMIPProxy(config='client', config_file=path)),
+                             ('KMIPProxy-other-section', lambda: kmip_client.KMIPProxy(config='other', config_file=path)),
+                             ('KMIPProxy-missing-section', lambda: kmip_client.KMIPProxy(config='nosuch', config_file=path)),
+                             ('ProxyKmipClient', lambda: pie_client.ProxyKmipClient(config='client', config_file=path))):
+            HH.client_call(w, '%s config:%s' % (label, lab), build)
+    HH.client_call(w, 'KMIPProxy config:missing file', lambda: kmip_client.KMIPProxy(config_file=os.path.join(d, 'absent.conf')))
+    with open(os.path.join(d, 'garbage.conf'), 'w') as f:
+        f.write('password=' + w.can.new('password', 20, text=True).decode() + '\nno section header\n')
+    HH.client_call(w, 'KMIPProxy config:no section header', lambda: kmip_client.KMIPProxy(config_file=os.path.join(d, 'garbage.conf')))
+
+
 @atom(layer='client')
 def client_cut_responses(w):
     """The connection drops inside a canary-carrying response: every cut offset (before / inside / after the 8-byte
@@ -929,5 +994,6 @@ CURATED = [
     ('session-structured-failures', 'session', ['setup_keys', 'sess_structured_failures']),
     ('client-loopback', 'client', ['client_ops']),
     ('client-cut-responses', 'client', ['client_cut_responses']),
+    ('client-config-files', 'client', ['client_config_files']),
     ('engine-attributes-requests', 'engine', ['setup_keys', 'lifecycle_all_types', 'attribute_paths', 'request_level', 'restart_and_reuse', 'locate_query', 'monitor_and_config']),
 ]
